@@ -145,7 +145,7 @@ def run(data, prop, manual_ops, overrun_ops):
         if client:
             ops += [(2, 'push'), (3, 'push-resp')]
         if manual_ops:
-            ops += [(4, 'inc'), (2, 'inc-bad'), (2, 'ack-odd')]
+            ops += [(4, 'inc'), (2, 'inc-bad'), (2, 'ack-odd'), (2, 'inc-closed')]
         op = ch.weighted(ops)
         if op == 'open' or not m.streams:
             if len(m.streams) >= 8:
@@ -364,6 +364,40 @@ def run(data, prop, manual_ops, overrun_ops):
                 else:
                     m.streams[target].manual = True
             absorb(o)
+        elif op == 'inc-closed':
+            # a window increment for a stream that was reset (the library may still hold it): a call that raises
+            # changes no window and emits nothing
+            cands = [st for st in m.streams.values() if st.closed_how in ('peer-rst', 'local-rst')]
+            if not cands:
+                continue
+            st = ch.pick(cands)
+            if ch.bool() and TOP - m.conn > 200000:
+                # open the connection window first so that it does not hide the stream's own window
+                o = s.call('increment_flow_control_window', 150000, None)
+                if not o.ok:
+                    r.violate('C04:valid-increment-rejected:%s' % o.exc_name, 'connection, 150000')
+                    break
+                m.conn_manual = True
+                m.conn_max = max(m.conn_max, m.conn + 150000)
+                absorb(o)
+            before = s.call('remote_flow_control_window', st.sid)
+            inc = ch.pick([1, 1000, 70000])
+            o = s.call('increment_flow_control_window', inc, st.sid)
+            after = s.call('remote_flow_control_window', st.sid)
+            r.step('inc-closed', st.sid, st.closed_how, inc, o.brief(), 'window', before.value if before.ok else before.brief(),
+                   after.value if after.ok else after.brief())
+            if not o.ok:
+                raised_window_call = True
+                r.labels.add('increment-on-reset-stream-refused')
+                if o.out:
+                    r.violate('C04:raising-increment-emitted', o.out.hex())
+                if before.ok and after.ok and before.value != after.value:
+                    r.violate('C04:raising-increment-changed-window', 'stream %d (%s): %r -> %r' %
+                              (st.sid, st.closed_how, before.value, after.value))
+                    break
+            else:
+                st.manual = True
+                absorb(o)
         elif op == 'inc-bad':
             inc = ch.pick([0, -1, 2**31, 2**32, -2**31])
             target = ch.pick([None] + [st.sid for st in live]) if live else None
